@@ -59,7 +59,7 @@ class BaseFiles(Generic[Interface]):
             os.path.join(self.directory, os.path.join(*path.split("/")))
         )
 
-        if path == "/":
+        if path.endswith("/"):
             abspath += "/"
 
         if os.path.relpath(abspath, self.directory).startswith(".."):
@@ -75,7 +75,7 @@ class BaseFiles(Generic[Interface]):
         try:
             stat_result = os.stat(path)
             return stat_result, stat.S_ISREG(stat_result.st_mode)
-        except FileNotFoundError:
+        except (FileNotFoundError, NotADirectoryError):
             return None, False
 
     def if_none_match(self, etag: str, if_none_match: str) -> bool:
